@@ -305,13 +305,18 @@ def lean_param(p: dict) -> str:
     )
 
 
+def lcodes(s: str) -> str:
+    return "[" + ", ".join(str(ord(c)) for c in s) + "]"
+
+
 def lean_row(r: dict) -> str:
     pos = ", ".join(lean_aarg(a) for a in r["aten"]["positional"])
     kw = ", ".join(lean_aarg(a) for a in r["aten"]["kwonly"])
     sig = ", ".join(lean_param(p) for p in r["sig"])
     mode = ".traced" if r["traceOnly"] else ".scripted"
     return (
-        f"  ⟨{lstr(r['qualified'])}, {lbool(r['isComplex'])}, {mode}, .{r['res']},\n"
+        f"  -- {r['qualified']}\n"
+        f"  ⟨{lcodes(r['qualified'])}, {lbool(r['isComplex'])}, {mode}, .{r['res']},\n"
         f"   ⟨[{pos}], [{kw}]⟩,\n"
         f"   [{sig}]⟩"
     )
